@@ -598,7 +598,48 @@ def independence_case(ctx, rng, idx):
             break
 
 
+def pam_streams_case(ctx, rng, idx):
+    """the constituent models of a PAMPredictiveModel draw from ONE stream:
+    with identical constituent models, no two of the sampled measurements
+    coincide (a stream restarted for every model repeats its first draws)"""
+    n_models = int(rng.integers(2, 5))
+    n_samples = int(rng.integers(2 * n_models, 30))
+    seed = int(rng.integers(0, 2 ** 31 - 2))
+    seed_arg = [seed, np.int64(seed), 0][idx % 3]
+    feats = {'kind': 'pam_models', 'n_models': n_models,
+             'seed_type': type(seed_arg).__name__}
+    ctx.case(('pam_models', n_models, idx % 3), True,
+             sample=dict(feats, seed=seed, n_samples=n_samples))
+    try:
+        pm, x = _pm(rng, n_out=int(rng.integers(1, 3)))
+        names = pm.get_parameter_names()
+        ds = c15._posterior_dataset(rng, names, 3, 8, ['a', 'b'])
+        models = [chi.PosteriorPredictiveModel(pm, ds)
+                  for _ in range(n_models)]
+        w = rng.uniform(0.5, 1.5, n_models)
+        pam = chi.PAMPredictiveModel(models, list(w / w.sum()))
+        df = pam.sample(TIMES, n_samples=n_samples, individual='a',
+                        seed=seed_arg)
+    except Exception as e:      # noqa
+        ctx.violation_exc('sampling_raises', e, {'kind': 'pam_models'},
+                          feats)
+        return
+    v = df['Value'].to_numpy(dtype=float)
+    ctx.count('stream_independence_tests')
+    ctx.count('pam_values_compared', len(v))
+    n_distinct = len(np.unique(v))
+    if len(v) != n_samples * len(TIMES) * len(pm.get_output_names()):
+        ctx.violation('pam_sample_count', 'pam_sample_count',
+                      {'rows': len(v), 'n_samples': n_samples}, feats)
+    elif n_distinct < len(v):
+        ctx.violation('streams_are_independent',
+                      'identical_noise_across_averaged_models',
+                      {'values': len(v), 'distinct': n_distinct,
+                       'n_models': n_models, 'seed': repr(seed_arg)}, feats)
+
+
 FAMILIES = [
+    Family('pam_streams', pam_streams_case, quick=24, thorough=240),
     Family('reproducibility', reproducibility_case, quick=8 * 36,
            thorough=8 * 400),
     Family('independence', independence_case, quick=84, thorough=840),
